@@ -33,7 +33,7 @@ pub fn def() -> CheckDef {
                same k must return the same labels with the identical BDDs, and membership of every (state, colour) must be unchanged. \
                (2) analyse_formulae(.., Some(zip), ..): entry formula-i must equal the library's batch result for line i of the archived \
                formulae.txt. (2b) analyse_formula (single-formula wrapper), with and without a context archive, writes the archive for its one formula and leaves the context archive untouched. (3) an extended formula evaluated with the reloaded sets must equal its evaluation with the in-memory sets. \
-               (4) one case in 40 archives scattered sets of up to 9 000 points over a graph with 2-3 spare variable sets (entries of 100+ KB). Non-trivial: >= 2 labels and some set neither empty nor full; distinct by (network, labels, formulae, k).",
+               (4) one case in 40 archives scattered sets of up to 9 000 points over a graph with 2-3 spare variable sets (entries of 100+ KB). (2e) a list of extended formulae with a label of their own each, analysed with the written archive as context: every entry equals the in-memory batch result. Non-trivial: >= 2 labels and some set neither empty nor full; distinct by (network, labels, formulae, k).",
         assumptions: &["archives are written under /verif/target/tmp and removed after each case", ".bnet / .sbml files are produced by lib-param-bn's own writers from the generated network"],
         cases: |t| if t == Tier::Quick { 600 } else { 30_000 },
         needs: |t| {
